@@ -28,7 +28,7 @@ EXPLANATION = (
     "frozen delegate; __eq__/__hash__ never look at metadata; with_meta is pure and installs exactly the given metadata; a "
     "mutator may return `self` unchanged only behind identity/emptiness tests, never behind a Python == on element values."
 )
-DECIDES = "no stores to value fields, evolver non-escape, transient hand-off, metadata invisible to =/hash, with_meta pure and exact, no ==-guarded self-return shortcuts, nil metadata installed like any other, pop stays in its collection type, nth covers every sequential collection"
+DECIDES = "no stores to value fields, evolver non-escape, transient hand-off, metadata invisible to =/hash, with_meta pure and exact, no ==-guarded self-return shortcuts, nil metadata installed like any other, pop stays in its collection type, nth covers every sequential collection, the elements of a vararg mutator are judged against the evolving collection (never filtered by a test of the receiver)"
 DECLINED = "agreement of each operation's result with the mathematical model (values); internals of pyrsistent / immutables"
 TRUSTED = ["FT-delegate: pyrsistent pvector/plist/pdeque and immutables.Map are immutable; evolver()/mutate() are copy-on-write"]
 ASSUMPTIONS = []
@@ -426,6 +426,54 @@ def r8_every_vararg_is_processed(ctx):
                        witness="(disj #{1 2} 5 1) must be #{2}")
     if n == 0:
         raise AnalysisError("no vararg loops found in the collection classes")
+
+
+def _reads_receiver(test, aliases) -> bool:
+    for x in ast.walk(test):
+        if isinstance(x, ast.Name) and (x.id == "self" or x.id in aliases):
+            return True
+    return False
+
+
+@rule("C04.R12", floor=4)
+def r12_varargs_are_applied_to_the_evolving_collection(ctx):
+    """The elements of a `*vararg` are applied one after the other, each to the collection as the
+    earlier ones left it (`(assoc m k v1 k v2)` = `(assoc (assoc m k v1) k v2)`): none of them is
+    skipped or filtered out under a test that reads the *receiver* (`self...`, or a local that
+    names one of its fields) -- the receiver is the state before the first element, so such a test
+    judges element i against a collection that elements < i have already changed."""
+    n = 0
+    for rel, cls in _classes(ctx):
+        for m in P.all_methods(cls):
+            va = m.args.vararg.arg if m.args.vararg is not None else None
+            if va is None or (m.name not in MUTATORS and not m.name.startswith(("assoc", "cons", "dissoc", "disj", "update"))):
+                continue
+            defs = P.single_defs(m)
+            aliases = {k for k, a in defs.items() if any(P.is_self_attr(x) for x in ast.walk(a.value))}
+            # locals derived from the vararg (entries = [... for k, v in partition(kvs, 2) ...])
+            derived = {va}
+            for _ in range(3):
+                derived |= {k for k, a in defs.items() if any(isinstance(x, ast.Name) and x.id in derived for x in ast.walk(a.value))}
+            bad = None
+            for x in ast.walk(m):
+                if isinstance(x, ast.comprehension) and any(isinstance(y, ast.Name) and y.id in derived for y in ast.walk(x.iter)):
+                    for t in x.ifs:
+                        if _reads_receiver(t, aliases):
+                            bad = (t, "filters the elements")
+                if isinstance(x, ast.Call) and P.un(x.func) in ("filter", "itertools.filterfalse", "filterfalse", "takewhile", "dropwhile", "itertools.takewhile", "itertools.dropwhile") and len(x.args) == 2 \
+                        and any(isinstance(y, ast.Name) and y.id in derived for y in ast.walk(x.args[1])) and _reads_receiver(x.args[0], aliases):
+                    bad = (x.args[0], "filters the elements")
+                if isinstance(x, (ast.For, ast.While)) and isinstance(x, ast.For) and any(isinstance(y, ast.Name) and y.id in derived for y in ast.walk(x.iter)):
+                    for i in ast.walk(x):
+                        if isinstance(i, (ast.If, ast.IfExp)) and _reads_receiver(i.test, aliases):
+                            bad = (i.test, "applies an element or skips it")
+            n += 1
+            ok = bad is None
+            ctx.ob("C04.R12", f"{rel}::{cls.name}.{m.name}::elements of *{va} judged against the evolving collection", rel, m.lineno, ok,
+                   "" if ok else f"`{P.un(bad[0])}` {bad[1]} of *{va} by looking at the receiver, i.e. at the collection before the first element was applied: an element that undoes an earlier one of the same call is taken for a no-op",
+                   witness="(assoc {:a 1} :a 2 :a 1) must be {:a 1}")
+    if n == 0:
+        raise AnalysisError("no vararg mutators found in the collection classes")
 
 
 RT = "src/basilisp/lang/runtime.py"
